@@ -5,11 +5,14 @@
 //!                            → `ok <hex statement>` | `err Empty|TooLong|IllegalCharacter`
 //! * `resp <hex name> <cs> <setks|error|void|close> <hex response name>`   one real connection, one `USE`
 //!                            exchange against the scripted node → `ok` | `err <label>`
+//! * `ukr <label,label,...>`  `use_keyspace_result` (cluster/worker.rs) on one combination of per-target results
+//!   (ok | broken | timeout | db | mismatch | unexpected; `-` = none) → `ok` | `err:<label>` | `panic`; all combinations of 0..4 targets
 //! * `pool <H|S><n> <init|-> <name:cs,...> <step;...>`   a REAL `NodeConnectionPool` (PoolRefiller task included)
 //!   against the scripted node (H = PerHost(n) on an unsharded node, S = PerShard(1) on a node with n shards
 //!   behind a shard-aware port). Steps (each prints one token):
 //!     `U<i>` use_keyspace(names[i])            → `ok` | `e:<label>`
 //!     `Q<s>` query on shard s (H: random)      → `q<server keyspace at arrival>@<shard of the connection>` | `q!`
+//!     `J`    query through random_connection (also on a sharded pool) → as `Q`
 //!     `K<s>` node closes the connection of shard s (H: the oldest live one) → `k` | `k-`
 //!     `W`    wait until the pool is full again (≤ 1.5 s)  → `w<count>`
 //!     `R<i>,<s|*>` / `M..` / `V..` / `P..` / `C..`  node rule for `USE names[i]` on shard s: reject (ERROR) /
@@ -565,6 +568,13 @@ fn pool_script(rng: &mut Rng, sharded: bool, n: u64, nvalid: usize, has_bad: boo
             if rng.chance(1, 3) {
                 steps.push(format!("Q{}", rng.below(n)));
             }
+            // random_connection on a sharded pool; a shard number out of range / not fitting u16 (treated as shard 0)
+            if rng.chance(1, 3) {
+                steps.push("J".into());
+            }
+            if rng.chance(1, 6) {
+                steps.push(format!("Q{}", *rng.pick(&[n, n + 5, 65535, 65536, 65537, 131072 + 1])));
+            }
         } else {
             for _ in 0..(n + 1) {
                 steps.push("Q0".to_owned());
@@ -644,10 +654,40 @@ fn pool_script(rng: &mut Rng, sharded: bool, n: u64, nvalid: usize, has_bad: boo
             }
             // the node holds back the USE answers on the published connections: the call times out (5 s) with its
             // USE in flight; after the release it is answered, before anything written later
-            12 if rng.chance(1, 7) => {
-                steps.push("E".into());
-                steps.push(format!("U{}", rng.below(nvalid as u64)));
-                steps.push("G".into());
+            12 if rng.chance(2, 5) => {
+                match rng.below(6) {
+                    // answered in order after the release
+                    0 | 1 => {
+                        steps.push("E".into());
+                        steps.push(format!("U{}", rng.below(nvalid as u64)));
+                        steps.push("G".into());
+                    }
+                    // only the call's USE is held: a user statement USE written behind it is answered OUT OF ORDER,
+                    // the held one is executed when it is released
+                    2 | 3 if sharded || n == 1 || symmetric => {
+                        steps.push("E1".into());
+                        steps.push(format!("U{}", rng.below(nvalid as u64)));
+                        steps.push(format!("Y{},{}", rng.below(nvalid as u64), if sharded { shard(rng) } else { 0 }));
+                        queries(rng, &mut steps);
+                        steps.push("G".into());
+                        symmetric = false;
+                    }
+                    // two calls time out; the node answers the second USE before the first
+                    _ if sharded || n == 1 || symmetric => {
+                        steps.push("E".into());
+                        steps.push(format!("U{}", rng.below(nvalid as u64)));
+                        steps.push(format!("U{}", rng.below(nvalid as u64)));
+                        steps.push(format!("O{},1", if sharded { shard(rng) } else { 0 }));
+                        queries(rng, &mut steps);
+                        steps.push("G".into());
+                        symmetric = false;
+                    }
+                    _ => {
+                        steps.push("E".into());
+                        steps.push(format!("U{}", rng.below(nvalid as u64)));
+                        steps.push("G".into());
+                    }
+                }
                 queries(rng, &mut steps);
                 steps.push(format!("U{}", rng.below(nvalid as u64)));
                 ks_set = true;
@@ -880,6 +920,18 @@ pub fn generate(rng: &mut Rng, tier: Tier, emit: &mut dyn FnMut(String)) {
     let per = (name_cases.len() as u64 / slow.max(1)).max(1) as usize;
     let mut slow_left = slow;
     let mut resp_iter = resp_cases.into_iter();
+    // use_keyspace_result on EVERY combination of per-target results, 0..4 targets
+    {
+        const LABELS: [&str; 6] = ["ok", "broken", "timeout", "db", "mismatch", "unexpected"];
+        emit("ukr -".into());
+        let mut combos: Vec<Vec<&str>> = vec![vec![]];
+        for _ in 0..4 {
+            combos = combos.iter().flat_map(|c| LABELS.iter().map(move |l| { let mut v = c.clone(); v.push(*l); v })).collect::<Vec<_>>();
+            for c in &combos {
+                emit(format!("ukr {}", c.join(",")));
+            }
+        }
+    }
     let n_sess: u64 = 30 * scale;
     let sess_every = (name_cases.len() as u64 / n_sess.max(1)).max(1) as usize;
     let mut sess_left = n_sess;
@@ -1098,12 +1150,12 @@ async fn run_pool(w: &[&str], race: bool, progress: &Mutex<String>, peek: &Mutex
                     let _ = q.await;
                 }
             }
-            "Q" => {
-                let s: u32 = arg.parse().ok()?;
+            "Q" | "J" => {
+                let s: u32 = if op == "J" { 0 } else { arg.parse().ok()? };
                 tag += 1;
                 submits.push((tag, node.tick()));
                 let text = format!("SELECT {}", tag);
-                let r = if sharded { pool.query_on_shard(s, &text).await } else { pool.query_on_random(&text).await };
+                let r = if sharded && op == "Q" { pool.query_on_shard(s, &text).await } else { pool.query_on_random(&text).await };
                 let seen = node.st.lock().unwrap().queries.iter().find(|q| q.tag == tag).map(|q| q.ks.clone());
                 out.push(match (r, seen) {
                     (Ok((reported, true)), Some(ks)) => format!(
@@ -1302,6 +1354,7 @@ async fn run_resp(w: &[&str], ctx: &mut Ctx) -> Option<String> {
 // `sess <n> <name:cs,...> <step;...>`   n unsharded nodes (one pool connection each). Steps:
 //   `U<i>`         session.use_keyspace(names[i])                      → `ok` | `e:<label>`
 //   `R<i>,<n|*>`   node n (all nodes) answers `USE names[i]` with an Invalid error      `X` no more rejections
+//   `T<n>`         node n stops answering `USE` (the call times out after 700 ms)     `t` all nodes answer again
 //   `K<n>`         node n closes its pool connections → `k`            `W` wait until all pools are full → `w1` | `w0`
 //   `A`            a node joins (metadata refresh) → `a<nodes>`
 //   `Q<k>`         k requests → `q<keyspace at arrival>@<node>,...`
@@ -1340,6 +1393,16 @@ fn sess_generate(rng: &mut Rng, emit: &mut dyn FnMut(String)) {
             7 if nodes < 4 => {
                 nodes += 1;
                 steps.push("A".into());
+                steps.push(format!("Q{}", rng.range(2, 4)));
+            }
+            // one node does not answer the USE (its pool times out, its connections stay published), the others do
+            9 if nodes >= 2 || rng.chance(1, 3) => {
+                let i = rng.below(nvalid as u64);
+                steps.push(format!("T{}", rng.below(nodes as u64)));
+                steps.push(format!("U{}", i));
+                steps.push(format!("Q{}", rng.range(2, 4)));
+                steps.push("t".into());
+                steps.push(format!("U{}", i));
                 steps.push(format!("Q{}", rng.range(2, 4)));
             }
             8 if has_bad => {
@@ -1382,8 +1445,14 @@ fn run_sess(w: &[&str], ctx: &mut Ctx) -> Option<String> {
     // (statement text, node or all)
     let rules: Arc<Mutex<Vec<(String, Option<usize>)>>> = Default::default();
     let rules_h = Arc::clone(&rules);
+    // nodes that do not answer `USE` at all
+    let muted: Arc<Mutex<Vec<usize>>> = Default::default();
+    let muted_h = Arc::clone(&muted);
     let handler = with_std_prepare(move |r: &Req| match &r.parsed {
         Parsed::Query { text, .. } if text.starts_with("USE ") => {
+            if muted_h.lock().unwrap().contains(&r.node) {
+                return vec![];
+            }
             if rules_h.lock().unwrap().iter().any(|(stmt, node)| stmt == text && (node.is_none() || *node == Some(r.node))) {
                 return vec![act_error(0x2200, "Keyspace does not exist", &[])];
             }
@@ -1399,9 +1468,14 @@ fn run_sess(w: &[&str], ctx: &mut Ctx) -> Option<String> {
     rt.block_on(async {
         let cluster = MockCluster::start(topo, handler).await;
         cluster.set_auto_use(false);
-        let session = match connect(&cluster, |b| b).await {
+        // a call whose USE is not answered by some node times out after the connection timeout
+        let with_timeouts = steps.iter().any(|s| s.starts_with('T'));
+        let session = match connect(&cluster, |b| if with_timeouts { b.connection_timeout(Duration::from_millis(700)) } else { b }).await {
             Ok(s) => s,
-            Err(_) => return Some("sess-skip".to_owned()),
+            Err(e) => {
+                ctx.fail(format!("sess: the session could not be set up against the mock cluster ({})", e));
+                return Some("sess-skip".to_owned());
+            }
         };
         let mut out: Vec<String> = Vec::new();
         let mut confirmed: Option<String> = None;
@@ -1419,6 +1493,12 @@ fn run_sess(w: &[&str], ctx: &mut Ctx) -> Option<String> {
                         Ok(()) => {
                             if !valid {
                                 ctx.fail(format!("sess: use_keyspace({:?}) returned Ok for an invalid name", name));
+                            }
+                            if !muted.lock().unwrap().is_empty() {
+                                ctx.fail(format!(
+                                    "sess: use_keyspace({:?}) returned Ok although node(s) {:?} (with live pool connections) never answered the USE: their pools timed out and their connections stay published without the keyspace",
+                                    name, muted.lock().unwrap()
+                                ));
                             }
                             confirmed = server_keyspace_of(&spec_statement(name, *cs));
                         }
@@ -1443,6 +1523,8 @@ fn run_sess(w: &[&str], ctx: &mut Ctx) -> Option<String> {
                     rules.lock().unwrap().push((spec_statement(name, *cs), node));
                 }
                 "X" => rules.lock().unwrap().clear(),
+                "T" => muted.lock().unwrap().push(arg.parse().ok()?),
+                "t" => muted.lock().unwrap().clear(),
                 "K" => {
                     let i: usize = arg.parse().ok()?;
                     if i >= cluster.n_nodes() {
@@ -1545,6 +1627,29 @@ pub fn run(case: &str, ctx: &mut Ctx) -> String {
             }
         }
         Some("sess") if w.len() == 4 => run_sess(&w, ctx).unwrap_or_else(|| "bad-case".into()),
+        Some("ukr") if w.len() == 2 => {
+            // `use_keyspace_result` (cluster/worker.rs) on one combination of per-target results
+            const LABELS: [&str; 6] = ["ok", "broken", "timeout", "db", "mismatch", "unexpected"];
+            let labels: Vec<&str> = if w[1] == "-" { vec![] } else { w[1].split(',').collect() };
+            if labels.iter().any(|l| !LABELS.contains(l)) || labels.len() > 8 {
+                return "bad-case".into();
+            }
+            let res = std::panic::catch_unwind(|| scylla::verif_hooks::cluster_worker::use_keyspace_result_labels(&labels));
+            let out = res.unwrap_or_else(|_| "panic".to_owned());
+            // oracle, from the property: Ok only if nothing but Ok / broken-connection results and at least one Ok;
+            // any other error (a TIMEOUT included: that target's connections stay published) fails the call
+            let first_other = labels.iter().find(|l| **l != "ok" && **l != "broken");
+            let expect = match first_other {
+                Some(l) => format!("err:{}", l),
+                None if labels.contains(&"ok") => "ok".to_owned(),
+                None if labels.is_empty() => "panic".to_owned(),
+                None => "err:broken".to_owned(),
+            };
+            if out != expect {
+                ctx.fail(format!("use_keyspace_result({:?}) = {} (the property requires {})", labels, out, expect));
+            }
+            out
+        }
         Some("resp") if w.len() == 5 => {
             let rt = tokio::runtime::Builder::new_current_thread().enable_all().build().unwrap();
             rt.block_on(run_resp(&w, ctx)).unwrap_or_else(|| "bad-case".into())
